@@ -147,6 +147,9 @@ def run_total():
                 solve.prove('T:%s:returns-last-term' % nm, lift(r_[0]).t == lift(R(tri[2])).t, [])
                 solve.prove('T:%s:abserr>=0' % nm, lift(e_[0]).t >= 0, [])
     xcheck.flush()
+    from ndvc.concrete import dea3_quiet_cases
+    cnt, qbad = dea3_quiet_cases(ex.dea3)
+    solve.fact('T:raises-nothing-with-warnings-promoted-to-errors,finite,abserr>=0[%d triples of moderate magnitude]' % cnt, not qbad, kind='bounded', note=str(qbad[:2])[:300])
     return dict()
 
 
